@@ -1,15 +1,131 @@
-import AFV.Model.Nest
-import AFV.Spec.NestExec
+import AFV.Lemmas.NestCosts2
 /-!
 # C05 — model action counts, energy and latency = explicit LoopTree execution
+
+* `AFV/Model/Nest.lean` — `analytic`: the model of `evaluate_mapping` for one Einsum (reservation tracker, per-tensor
+  bottom-up propagation, `repeat_temporal`, conversion to actions, energy, latency).
+* `AFV/Spec/NestExec.lean` — `exec`: the reference execution (really iterates every loop; skipping of never-written
+  output values is decided from the history).
+
+Main theorem `analytic_counts_eq_exec`: for EVERY well-formed concrete mapping (`WF`, decidable; no bound on sizes, on
+the number of loops, holders, tensors or levels) `analytic` succeeds and its per-(level, tensor) read and write action
+counts and its compute count are exactly those of `exec`.
 -/
 namespace AFV.C05
 open AFV.Nest AFV.NestExec
 
 /-- The model's `_get_values_per_action` follows the documented precedence. -/
 theorem values_per_action_precedence (lv : Level Rat) (a : Act Rat) (t : TId) (bpv : Rat) :
-    valuesPerAction lv a t bpv = valuesPerActionSpec lv a t bpv := by
-  unfold valuesPerAction valuesPerActionSpec
-  cases h1 : lookup a.vpa t <;> cases h2 : lookup lv.vpa t <;> cases h3 : a.bpa <;> cases h4 : lv.bpa <;> simp
+    valuesPerAction lv a t bpv = valuesPerActionSpec lv a t bpv := vpa_precedence lv a t bpv
+
+/-- **Key lemma** (re-exported): iteration `k` of a loop finds its sub-tile never written iff the tile was never written
+and (the loop's rank variable indexes the tensor, or `k = 0`). -/
+theorem fresh_iff_irrelevant_zero (ti : TInfo) (hnd : ti.rvs.Nodup) (e : Env) (rv : RV) (tile n k : Nat)
+    (hb : rv < e.base.length) (hs : rv < e.shape.length) (hdiv : e.shape.getD rv 1 = tile * n) (hk : k < n)
+    (w wk : Elem → Bool) (f : Bool) (hpre : Pre ti e w f)
+    (hwk : ∀ x, wk x = true ↔ (w x = true ∨ (ti.isOut = true ∧ ∃ j, j < k ∧ inRegion (e.enter rv tile j) ti.rvs x = true))) :
+    Pre ti (e.enter rv tile k) wk (f && (ti.rvs.contains rv || k == 0)) :=
+  AFV.NestExec.fresh_iff_irrelevant_zero ti hnd e rv tile n k hb hs hdiv hk w wk f hpre hwk
+
+theorem scaleNi_eq (ni : Rat) :
+    (fun (x : Lvl × TId × Rat × Rat) => match x with | (l, t, r, wr) => (l, t, r * ni, wr * ni)) = scaleNi ni := by
+  funext x; obtain ⟨l, t, r, wr⟩ := x; rfl
+
+/-- **C05, counts.** On every well-formed mapping the model succeeds and its action counts per (level, tensor) —
+reads and writes — and its compute count equal those of the reference execution. -/
+theorem analytic_counts_eq_exec (arch : Arch Rat) (wq : Workload Rat) (wn : Workload Nat) (m : Mapping Nat)
+    (hwf : WF arch wn m = true) (hc : Compat wq wn) :
+    ∃ r, analytic arch wq (castMapping m) = some r ∧
+      r.actions = (exec arch wq wn m).actions ∧ r.computes = (exec arch wq wn m).computes := by
+  have hf := wf_facts arch wn m hwf
+  obtain ⟨bs, h1, h2⟩ := allBuffets_spec arch wq wn m hf hc wn.tensors.length 0 (by omega)
+  refine ⟨assemble arch wq (splitHolders (castMapping m)) bs, ?_, ?_, ?_⟩
+  · simp only [analytic, hc.len, h1]
+  · rw [exec_actions, ← h2]
+    simp only [assemble, List.map_map]
+    apply List.map_congr_left
+    intro b _
+    rfl
+  · have := computeOps_eq m wn.bounds hf.loops
+    simp only [assemble, exec, computeOps_split, hc.bounds, this]
+
+/-- **C05, full statement.** On every well-formed mapping the model succeeds and every C05 observable — action counts per
+(level, tensor), compute count, latency per component, overall latency (max over components of Σ n_calls / throughput),
+dynamic energy (Σ count × per-action energy), leak energy (leak power × latency), total energy — equals the result of
+the reference execution with the documented conversion rules. -/
+theorem analytic_eq_exec (arch : Arch Rat) (wq : Workload Rat) (wn : Workload Nat) (m : Mapping Nat)
+    (hwf : WF arch wn m = true) (hc : Compat wq wn) :
+    ∃ r, analytic arch wq (castMapping m) = some r ∧
+      r.actions = (exec arch wq wn m).actions ∧ r.computes = (exec arch wq wn m).computes ∧
+      r.latencies = (exec arch wq wn m).latencies ∧ r.computeLatency = (exec arch wq wn m).computeLatency ∧
+      r.totalLatency = (exec arch wq wn m).totalLatency ∧ r.dynamicEnergy = (exec arch wq wn m).dynamicEnergy ∧
+      r.leakEnergy = (exec arch wq wn m).leakEnergy ∧ r.totalEnergy = (exec arch wq wn m).totalEnergy := by
+  have hf := wf_facts arch wn m hwf
+  obtain ⟨bs, h1, h2⟩ := allBuffets_spec arch wq wn m hf hc wn.tensors.length 0 (by omega)
+  refine ⟨assemble arch wq (splitHolders (castMapping m)) bs, by simp only [analytic, hc.len, h1], ?_⟩
+  have hops : computeOps wq.bounds (splitHolders (castMapping m)) * arch.compute.actionsScale
+      = (execComputes m wn.bounds : Rat) * arch.compute.actionsScale := by
+    rw [computeOps_split, hc.bounds, computeOps_eq m wn.bounds hf.loops]
+  have hA := assemble_costs arch wq (splitHolders (castMapping m)) bs
+  simp only [h2, hops, ← exec_eq_costs] at hA
+  exact hA
+
+/-- Latency: per component Σ n_calls / throughput (default `total_latency`), overall = the maximum (`latency_def`). -/
+theorem latency_def (arch : Arch Rat) (wq : Workload Rat) (wn : Workload Nat) (m : Mapping Nat)
+    (hwf : WF arch wn m = true) (hc : Compat wq wn) :
+    ∃ r, analytic arch wq (castMapping m) = some r ∧ r.latencies = (exec arch wq wn m).latencies ∧
+      r.computeLatency = (exec arch wq wn m).computeLatency ∧ r.totalLatency = (exec arch wq wn m).totalLatency := by
+  obtain ⟨r, h, _, _, h3, h4, h5, _⟩ := analytic_eq_exec arch wq wn m hwf hc
+  exact ⟨r, h, h3, h4, h5⟩
+
+/-- Energy = Σ count × per-action energy + leak power × latency (`energy_def`). -/
+theorem energy_def (arch : Arch Rat) (wq : Workload Rat) (wn : Workload Nat) (m : Mapping Nat)
+    (hwf : WF arch wn m = true) (hc : Compat wq wn) :
+    ∃ r, analytic arch wq (castMapping m) = some r ∧ r.dynamicEnergy = (exec arch wq wn m).dynamicEnergy ∧
+      r.leakEnergy = (exec arch wq wn m).leakEnergy ∧ r.totalEnergy = (exec arch wq wn m).totalEnergy ∧
+      r.totalEnergy = r.leakEnergy + r.dynamicEnergy := by
+  obtain ⟨r, h, _, _, _, _, _, h6, h7, h8⟩ := analytic_eq_exec arch wq wn m hwf hc
+  refine ⟨r, h, h6, h7, h8, ?_⟩
+  rw [h8, h6, h7]; rfl
+
+/-! ## Non-vacuity: a concrete matmul mapping (Z[m,n] += A[m,k]·B[k,n], output refetched below the irrelevant loop k,
+a Toll between the two memories, bits-per-action overrides) satisfies every hypothesis. -/
+
+def exAct : Act Rat := { energy := 1, throughput := 2 }
+def exMem (skip : Bool) : Level Rat :=
+  { isToll := false, size := 4096, leak := 1, actionsScale := 1, skipInitial := skip, bpvOv := [(0, 4)], bpa := some 16,
+    vpa := [], read := exAct, write := { exAct with bpa := some 32 }, dir := [] }
+def exToll : Level Rat :=
+  { isToll := true, size := 1, leak := 0, actionsScale := 1, skipInitial := true, bpvOv := [], bpa := none, vpa := [],
+    read := exAct, write := exAct, dir := [(0, Dir.down), (1, Dir.upDown), (2, Dir.up)] }
+def exArch : Arch Rat :=
+  { levels := [exMem true, exToll, exMem false],
+    compute := { energy := 1, throughput := 1, leak := 0, actionsScale := 1, skipInitial := true } }
+def exTensorsN : List (TensorSpec Nat) :=
+  [{ rvs := [0, 1], isOutput := false, bpv := 1 }, { rvs := [1, 2], isOutput := false, bpv := 1 },
+   { rvs := [0, 2], isOutput := true, bpv := 1 }]
+def exWn : Workload Nat := { bounds := [4, 6, 2], tensors := exTensorsN, nInstances := 1 }
+def exWq : Workload Rat :=
+  { bounds := [4, 6, 2],
+    tensors := [{ rvs := [0, 1], isOutput := false, bpv := 8 }, { rvs := [1, 2], isOutput := false, bpv := 8 },
+                { rvs := [0, 2], isOutput := true, bpv := 8 }],
+    nInstances := 3 }
+def exMap : Mapping Nat :=
+  [.storage 0 [0, 1, 2] true, .loop 0 2, .toll 1 [0, 2] true, .storage 2 [0, 2] true, .loop 1 1, .storage 2 [1] true,
+   .loop 2 1, .loop 0 1, .compute]
+
+example : WF exArch exWn exMap = true := by decide
+
+theorem example_compat : Compat exWq exWn := by
+  refine ⟨by simp [exWq, exWn], rfl, ?_, ?_⟩ <;> intro t <;>
+    (match t with
+     | 0 => rfl
+     | 1 => rfl
+     | 2 => rfl
+     | (n + 3) => rfl)
+
+example : ∃ r, analytic exArch exWq (castMapping exMap) = some r ∧ r.actions = (exec exArch exWq exWn exMap).actions :=
+  let ⟨r, h, ha, _⟩ := analytic_eq_exec exArch exWq exWn exMap (by decide) example_compat
+  ⟨r, h, ha⟩
 
 end AFV.C05
